@@ -65,7 +65,8 @@ def rule_typecheck(ctx, R):
 
 def rule_templateset(ctx, R):
     fb = ctx.fb
-    exp = {"command": 7, "area": 5, "fn_print": 1, "fn_eprint": 1, "vec_to_str": 1}
+    # templates that carry text; a pure concatenation `format!("{}{}", a, b)` emits nothing of its own
+    exp = {"command": 6, "area": 5, "fn_print": 1, "fn_eprint": 1, "vec_to_str": 1}
     for nm, n in exp.items():
         b = fb.bodies.get(COMPILE + nm)
         if not R.anchor(b is not None, nm, "compile::" + nm):
@@ -76,7 +77,8 @@ def rule_templateset(ctx, R):
         except Exception as e:
             R.fail("templateset:%s" % nm, "templates of compile::%s cannot be recovered: %s" % (nm, e), b.span)
             continue
-        R.check(len(ts) == n, "templateset:%s" % nm, "compile::%s emits through exactly the %d known templates (found %d): a new template is outside what was validated" % (nm, n, len(ts)), b.span, [t.skeleton()[:80] for t in ts])
+        ts = [t for t in ts if any(p[0] == "lit" and p[1].strip() for p in t.pieces)]
+        R.check(len(ts) == n, "templateset:%s" % nm, "compile::%s emits through exactly the %d known text templates (found %d): a new template is outside what was validated" % (nm, n, len(ts)), b.span, [t.skeleton()[:80] for t in ts])
     # the generator's output is only built from format!/push_str of these pieces: no other String-producing calls on the result
     b = fb.bodies.get(COMPILE + "area")
     if b is not None:
